@@ -1,7 +1,9 @@
 #!/venv/bin/python
 """apply a patch to /repo, run checks (without touching evidence), undo the patch straight afterwards.
 
-usage: tools/try_mutant.py <patch.diff> [C05 C04 ...] [--tier quick] [--seed N]
+usage: tools/try_mutant.py <patch.diff> [C05 C04 ...] [--tier quick] [--seed N] [--repo DIR]
+--repo DIR: apply the patch to a scratch git worktree of /repo instead (checks then run with VERIF_REPO=DIR); used for bulk
+re-runs so that /repo itself stays untouched and several changes can be tried at the same time.
 prints one line per check: <prop> exit=<rc> (VIOLATION lines ...)   and a summary `caught_by=[...]`
 """
 import os
@@ -22,20 +24,25 @@ def main():
         i = args.index("--seed")
         seed = args[i + 1]
         del args[i:i + 2]
+    repo = "/repo"
+    if "--repo" in args:
+        i = args.index("--repo")
+        repo = os.path.abspath(args[i + 1])
+        del args[i:i + 2]
     patch = os.path.abspath(args[0])
     props = args[1:] or ["C%02d" % i for i in range(1, 21)]
-    st = subprocess.run(["git", "-C", "/repo", "status", "--porcelain"], capture_output=True, text=True).stdout.strip()
+    st = subprocess.run(["git", "-C", repo, "status", "--porcelain"], capture_output=True, text=True).stdout.strip()
     if st:
-        print("refusing: /repo has uncommitted changes:\n" + st)
+        print("refusing: " + repo + " has uncommitted changes:\n" + st)
         return 2
-    r = subprocess.run(["git", "-C", "/repo", "apply", patch], capture_output=True, text=True)
+    r = subprocess.run(["git", "-C", repo, "apply", patch], capture_output=True, text=True)
     if r.returncode != 0:
         print("patch does not apply:", r.stderr)
         return 2
     caught, incon = [], []
     try:
         for p in props:
-            e = dict(os.environ, VERIF_SEED=str(seed))
+            e = dict(os.environ, VERIF_SEED=str(seed), VERIF_REPO=repo)
             r = subprocess.run([os.path.join(V, "check"), p, "--tier", tier, "--no-evidence"], cwd=V, env=e, capture_output=True, text=True)
             lines = [l for l in r.stdout.splitlines() if l.startswith(("VIOLATION", "    sub=", "[%s] INCONCLUSIVE" % p))]
             print(f"{p} exit={r.returncode} " + (" | ".join(l.strip()[:260] for l in lines[:3])))
@@ -44,7 +51,7 @@ def main():
             elif r.returncode != 0:
                 incon.append(p)
     finally:
-        subprocess.run(["git", "-C", "/repo", "checkout", "--", "."], check=True)
+        subprocess.run(["git", "-C", repo, "checkout", "--", "."], check=True)
     print("caught_by=%s inconclusive=%s" % (caught, incon))
     return 0
 
